@@ -6,6 +6,7 @@ import (
 	"runtime"
 	"sort"
 	"strconv"
+	"strings"
 	"sync"
 	"sync/atomic"
 	"time"
@@ -66,10 +67,10 @@ type Spec interface {
 type SearchOpts struct {
 	Depth     int
 	Workers   int
-	KeyStores []string      // nil = all KV stores
-	Deadline  time.Time     // zero = none; hitting it ends the search with Exhaustive=false
-	MaxViol   int           // stop after this many violating transitions (default 64)
-	MaxStates int           // 0 = none; cap on states (Exhaustive=false when hit)
+	KeyStores []string  // nil = all KV stores
+	Deadline  time.Time // zero = none; hitting it ends the search with Exhaustive=false
+	MaxViol   int       // stop after this many violating transitions (default 64)
+	MaxStates int       // 0 = none; cap on states (Exhaustive=false when hit)
 }
 
 type pnode struct {
@@ -117,6 +118,10 @@ type SearchResult struct {
 	CapReason   string
 	Samples     [][]string
 	Halts       []FoundViolation // block-level halts (C02 material)
+	// Nondet is set when replaying a recorded path on another worker's application gave a different state: the
+	// implementation keeps state outside the stores (see DiagnoseGhost).  The search stops there.
+	Nondet     string
+	NondetPath []string
 }
 
 type worker struct {
@@ -175,6 +180,18 @@ func Search(spec Spec, opts SearchOpts) SearchResult {
 		}
 	}
 
+	// parameter ghosts: every module's MsgUpdateParams with other values, executed on a discarded branch of the root state
+	// on every worker (see ghost.go) — a no-op unless the implementation keeps parameters outside the stores
+	// (one direction per worker — even workers "up", odd workers "down" — because a second update would be computed from
+	// what the keeper answers after the first; frontier nodes are spread over the workers at every level)
+	for i, wk := range workers {
+		for _, g := range ParamGhosts {
+			if strings.HasSuffix(g, ".up") == (i%2 == 0) {
+				StepEv(spec, wk.w, wk.base, wk.m0, GhostPrefix+g)
+			}
+		}
+	}
+
 	var seen sync.Map
 	seen.Store(keys0[0], struct{}{})
 	res.States = 1
@@ -216,7 +233,15 @@ func Search(spec Spec, opts SearchOpts) SearchResult {
 					if n.owner != wi {
 						ctx, m, key := rebuild(spec, wk, n.p.path(), opts.KeyStores)
 						if key != n.key {
-							Fatal3("HARNESS-NONDETERMINISM: replaying %v on worker %d gives key %s, recorded %s", n.p.path(), wi, key, n.key)
+							mu.Lock()
+							if res.Nondet == "" {
+								res.Nondet = fmt.Sprintf("replaying %v on worker %d gives key %s, recorded %s", n.p.path(), wi, key, n.key)
+								res.NondetPath = n.p.path()
+								res.CapReason = "state depends on something outside the stores"
+							}
+							mu.Unlock()
+							capped.Store(true)
+							return
 						}
 						n.ctx, n.m, n.owner = ctx, m, wi
 						atomic.AddInt64(&rebuilt, 1)
@@ -333,15 +358,57 @@ func rebuild(spec Spec, wk *worker, path []string, keyStores []string) (sdk.Cont
 	for _, ev := range path {
 		c := Fork(ctx)
 		cm := m.Clone()
-		c2, _ := spec.Step(wk.w, c, cm, ev)
+		c2, _ := StepEv(spec, wk.w, c, cm, ev)
 		ctx, m = c2, cm
 	}
 	return ctx, m, wk.w.HashStores(ctx, keyStores, []byte(m.Key()))
 }
 
+// GhostPrefix marks a *discarded execution* in a path: the event is executed by the real handlers on a branch of the
+// state that is then thrown away together with the reference model's copy — what the chain does with a transaction whose
+// later message fails, with an out-of-gas abort after the handler, and with every gas simulation.  On an implementation
+// that keeps all its state in the stores a ghost is a no-op; paths with ghosts are produced only by DiagnoseGhost.
+const GhostPrefix = "~"
+
+// StepEv is Spec.Step plus the ghost rule.
+func StepEv(spec Spec, w *World, ctx sdk.Context, m Model, ev string) (sdk.Context, StepResult) {
+	if !strings.HasPrefix(ev, GhostPrefix) {
+		return spec.Step(w, ctx, m, ev)
+	}
+	out := "ghost"
+	func() {
+		defer func() {
+			if r := recover(); r != nil {
+				out = "ghost-panic"
+			}
+		}()
+		if name := ev[len(GhostPrefix):]; isParamGhost(name) {
+			if !runParamGhost(w, Fork(ctx), name) {
+				out = "ghost-rejected"
+			}
+			return
+		}
+		g, _ := spec.Step(w, Fork(ctx), m.Clone(), ev[len(GhostPrefix):])
+		if g.BlockHeight() != ctx.BlockHeight() || !g.BlockTime().Equal(ctx.BlockTime()) {
+			out = "ghost-block" // a block boundary cannot be rolled back: not a legal ghost
+		}
+	}()
+	return ctx, StepResult{Outcome: out}
+}
+
 // Replay executes path on a fresh world and returns the violations of the last step and the
 // outcome labels of every step.
 func Replay(spec Spec, path []string) (last StepResult, outcomes []string, finalKey string) {
+	all, outcomes, finalKey, _ := replayAll(spec, path, false)
+	if len(all) > 0 {
+		last = all[len(all)-1]
+	}
+	return last, outcomes, finalKey
+}
+
+// replayAll executes path on a fresh world and returns every step's result; with wantEnabled it also returns the
+// events enabled in the final state.
+func replayAll(spec Spec, path []string, wantEnabled bool) (all []StepResult, outcomes []string, finalKey string, enabled []string) {
 	buildMu.Lock()
 	DetRandReset()
 	w := NewWorld()
@@ -351,12 +418,88 @@ func Replay(spec Spec, path []string) (last StepResult, outcomes []string, final
 	for _, ev := range path {
 		c := Fork(ctx)
 		cm := m.Clone()
-		c2, st := spec.Step(w, c, cm, ev)
+		c2, st := StepEv(spec, w, c, cm, ev)
 		ctx, m = c2, cm
-		last = st
+		all = append(all, st)
 		outcomes = append(outcomes, st.Outcome)
 	}
-	return last, outcomes, w.HashStores(ctx, nil, []byte(m.Key()))
+	if wantEnabled {
+		enabled = spec.Enabled(w, ctx, m, len(path))
+	}
+	return all, outcomes, w.HashStores(ctx, nil, []byte(m.Key())), enabled
+}
+
+// DiagnoseGhost explains a behaviour that the branching search observed but that a plain replay of the same path on a
+// fresh application does not show.  The search executes sibling transitions on branches of one application and discards
+// them; that is invisible to an implementation whose state lives in the stores, so the only explanation is state kept
+// outside them (a keeper field, a package variable) which a discarded execution changed.  The diagnosis looks for the
+// smallest witness: the recorded path with ONE discarded execution inserted (latest position first), replayed on a fresh
+// application, on which the property's own monitors report a violation; with lookahead, one further enabled event is
+// appended when the ghost changes the state without a monitor firing yet.  Every candidate is a complete fresh replay, so
+// the witness is reproducible; nil means none was found within the budget.
+func DiagnoseGhost(spec Spec, path []string, wantFP string, lookahead bool, budget int, deadline time.Time) (witness []string, viol Violation) {
+	// firstViol returns the wanted violation (any violation when wantFP is empty) and the number of steps up to it
+	firstViol := func(all []StepResult) (Violation, int, bool) {
+		for j, st := range all {
+			for _, v := range st.Violations {
+				if v.Fingerprint == wantFP || wantFP == "" {
+					return v, j + 1, true
+				}
+			}
+		}
+		return Violation{}, 0, false
+	}
+	var plainKey string
+	if lookahead {
+		_, _, plainKey, _ = replayAll(spec, path, false)
+	}
+	var fallback []string
+	var fallbackV Violation
+	for i := len(path); i >= 0 && budget > 0; i-- {
+		if i == len(path) && !lookahead {
+			continue
+		}
+		_, _, _, cands := replayAll(spec, path[:i], true)
+		budget--
+		if i == 0 || i >= len(path)-1 {
+			cands = append(cands, ParamGhosts...) // Search executes them at the root
+		}
+		for _, g := range cands {
+			if budget <= 0 || (!deadline.IsZero() && time.Now().After(deadline)) {
+				break
+			}
+			p := append(append(append([]string{}, path[:i]...), GhostPrefix+g), path[i:]...)
+			all, outs, key, en := replayAll(spec, p, lookahead)
+			budget--
+			if outs[i] != "ghost" {
+				continue
+			}
+			if v, n, ok := firstViol(all); ok && n > i {
+				return p[:n], v
+			}
+			if wantFP != "" && fallback == nil { // a different clause of the same property fires: keep as second choice
+				for j, st := range all {
+					if len(st.Violations) > 0 && j >= i && fallback == nil {
+						fallback, fallbackV = p[:j+1], st.Violations[0]
+					}
+				}
+			}
+			if lookahead && key != plainKey {
+				for _, e := range en {
+					if budget <= 0 {
+						break
+					}
+					p2 := append(append([]string{}, p...), e)
+					all2, _, _, _ := replayAll(spec, p2, false)
+					budget--
+					if len(all2) > 0 && len(all2[len(all2)-1].Violations) > 0 {
+						return p2, all2[len(all2)-1].Violations[0]
+					}
+				}
+			}
+		}
+	}
+	return fallback, fallbackV
 }
 
 // Fatal3 reports an internal harness error (never a violation) and exits with status 3.
